@@ -512,9 +512,10 @@ where
 
         if self.prev_values.is_empty() {
             self.save_state = self.state.clone();
-            if self.time.real() + self.dt.real() * (self.order - Self::Field::one()).real()
-                >= self.end.real()
-            {
+            // The O - 1 start-up steps advance the time by repeated addition, which can end an ulp
+            // beyond time + (O - 1) dt: the start-up is taken at the full step only when one more
+            // step would fit as well, otherwise it is shortened.
+            if self.time.real() + self.dt.real() * self.order.real() >= self.end.real() {
                 // Leave room for the final step, which lands exactly on the end: O - 1 steps of
                 // (end - time) / (O - 1) can overshoot the end by rounding.
                 self.dt = (self.end - self.time) / self.order;
